@@ -221,14 +221,17 @@ def write_replay(prop, viol):
 def finish(prop, tier, seed, merged, rule, t0, assumptions, level="exploration", floors=None, extra_cov=None,
            own_crashes=False, exhaustive=False):
     """Decide, print VIOLATION / KNOWN-FINDING lines, write evidence, return exit code.
-    own_crashes: crashes inside the workload are violations of *this* property; otherwise they are
-    'inconclusive: crashed, see C10'."""
+    own_crashes: time-outs inside the workload are verdicts of *this* property too (termination is part of it); otherwise a
+    time-out is inconclusive.  Crashes are always reported under the property whose workload crashed."""
     known = load_known()
     new_viol = []; known_hits = {}
     for v in merged.violations:
-        if v.get("crash") and not own_crashes:
-            merged.inconclusive.append("crashed in %s (%s) - crashes are owned by C10/C17/C09/C11/C20: %s" % (v["inv"], v["key"], json.dumps(v["replay"])))
+        if v.get("crash") and not own_crashes and "timeout" in v["key"]:
+            # a time-out is never a verdict here (termination belongs to C09/C11/C10): inconclusive, tolerated in small numbers (see below)
+            merged.inconclusive.append("timed out in %s (%s): %s" % (v["inv"], v["key"], json.dumps(v["replay"])))
             continue
+        # any other abnormal end of a case (signal, sanitizer report, terminate) inside this property's own workload: the execution did not
+        # show the property; it is reported under this property (C10 reports the memory error itself when it reaches the same path)
         k = match_known(prop, v["key"], known)
         if k:
             known_hits.setdefault(k.get("key") or k.get("key_re"), (k, 0))
@@ -275,7 +278,9 @@ def finish(prop, tier, seed, merged, rule, t0, assumptions, level="exploration",
     if merged.inconclusive:
         for h in merged.inconclusive[:5]:
             print("INCONCLUSIVE: " + h[:1000])
-        return 2
+        # a handful of cases without verdict (time-outs on a loaded machine) do not void a run whose coverage floors are met
+        if len(merged.inconclusive) > max(2, 0.01 * merged.evaluations):
+            return 2
     if floor_fail:
         for h in floor_fail:
             print("INCONCLUSIVE: " + h)
